@@ -4,7 +4,7 @@
    implementation's multi-label result equals this model (Corr/StocksC.v), i.e. no cross-talk. *)
 From Coq Require Import List Arith Field_theory.
 Import ListNotations.
-From Flodym Require Import Base.ND Model.Stocks Proofs.StockAlgebra Proofs.StockModel Proofs.StockRoundtrip.
+From Flodym Require Import Base.ND Model.Stocks Model.Lifetime Proofs.StockAlgebra Proofs.StockModel Proofs.StockRoundtrip Proofs.C16More.
 
 Section G.
 Variable F : Type.
@@ -45,7 +45,29 @@ Theorem C16_stock_driven_inflow_linear_in_stock :
   forall j, j < m -> nthF (fs F fO fadd fmul fsub fdiv sf b3 m) j
                    = fadd (fmul a (nthF (fs F fO fadd fmul fsub fdiv sf b1 m) j)) (fmul c (nthF (fs F fO fadd fmul fsub fdiv sf b2 m) j)).
 Proof. intros; eapply fsolve_linear; eauto. Qed.
+(* the stock response to a unit inflow rate in one cohort: that cohort's column of the survival table times its interval length *)
+Theorem C16_unit_impulse_response :
+  forall n dt inflow sf c0 t, length dt = n -> length inflow = n -> c0 < n -> t < n ->
+  (forall c, c < n -> nthF inflow c = if Nat.eqb c c0 then fI else fO) ->
+  nthF (o_stock F (idsm F fO fI fadd fmul fsub fdiv true n dt inflow sf)) t = fmul (nthF dt c0) (nth2 sf t c0).
+Proof. intros; eapply idsm_unit_impulse; eauto. Qed.
+
+(* shifting all time items by a constant: the interval lengths and the survival table of ANY distribution (its survival function S is
+   a parameter) stay the same, hence everything computed from them; at least three time items, 2 <> 0 in the field *)
+Theorem C16_calendar_shift_keeps_interval_lengths :
+  fadd fI fI <> fO -> forall s items, 3 <= length items ->
+  interval_lengths F fO fI fadd fsub fdiv (shift F fadd s items) = interval_lengths F fO fI fadd fsub fdiv items.
+Proof. intros; eapply interval_lengths_shift; eauto. Qed.
+
+Theorem C16_calendar_shift_keeps_survival_table :
+  fadd fI fI <> fO -> forall (P : Type) (S : F -> P -> F) s items quad prm, 3 <= length items ->
+  sf_table F fO fI fadd fmul fsub P S (length items) (bounds F fO fI fadd fsub fdiv (shift F fadd s items)) quad prm
+  = sf_table F fO fI fadd fmul fsub P S (length items) (bounds F fO fI fadd fsub fdiv items) quad prm.
+Proof. intros; eapply sf_table_shift; eauto. Qed.
 End G.
+Print Assumptions C16_unit_impulse_response.
+Print Assumptions C16_calendar_shift_keeps_interval_lengths.
+Print Assumptions C16_calendar_shift_keeps_survival_table.
 Print Assumptions C16_inflow_driven_causal.
 Print Assumptions C16_stock_driven_causal.
 Print Assumptions C16_stock_linear_in_inflow.
